@@ -251,6 +251,24 @@ def _dispatcher(b):
                 b.case("dispatch/controller_states_move_with_the_notes", bad is None, case, bad or "")
             b.case("dispatch/options_reach_the_midi_reader_as_named", good, case, "%d parts on tracks %r, first note of the first part at %.4f s (MIDI reader: %d parts, %.4f s)" % (
                 nparts, tracks, first, len(ref.performedparts), ref_first))
+        # the second public reader of the same file: one table of all notes, ids in order of onset over ALL tracks
+        from partitura.io.importmidi import midi_to_notearray
+        case = {"midi_to_notearray": "two tracks"}
+        ok, na = b.guard("dispatch/no_exception", case, lambda: midi_to_notearray(fn))
+        if ok:
+            rows = [(str(r["id"]), int(r["pitch"]), round(float(r["onset_sec"]), 3)) for r in na]
+            want = [("n%d" % i, p_, o_) for i, (o_, p_) in enumerate(sorted([(0.5, 48), (0.5, 60), (0.75, 72), (1.0, 64)]))]
+            b.case("load/ids_in_order_of_onset_pitch_offset_channel_track", rows == want, case, "rows (id, pitch, onset) %r, the file holds %r" % (rows, want))
+        # a part made from a note array that names channels but no tracks: the channels reach the file
+        import numpy as np
+        arr = np.array([(60, 0.0, 0.5, 64, 0, "a0"), (64, 0.5, 0.5, 70, 3, "a1"), (67, 1.0, 0.5, 75, 15, "a2"), (72, 1.5, 0.5, 80, 9, "a3")],
+                       dtype=[("pitch", "i4"), ("onset_sec", "f4"), ("duration_sec", "f4"), ("velocity", "i4"), ("channel", "i4"), ("id", "U4")])
+        case = {"part_from_note_array": "channel column, no track column"}
+        fn2 = os.path.join(d, "from_array.mid")
+        ok, back = b.guard("roundtrip/load_no_exception", case, lambda: (pt.save_performance_midi(pf.PerformedPart.from_note_array(arr), fn2), pt.load_performance_midi(fn2))[1])
+        if ok:
+            got = sorted((n["midi_pitch"], n["channel"]) for pp in back.performedparts for n in pp.notes)
+            b.case("roundtrip/same_notes_times_rounded_to_nearest_tick", got == [(60, 0), (64, 3), (67, 15), (72, 9)], case, "(pitch, channel) read back %r, the array says channels 0, 3, 15, 9" % got)
     finally:
         shutil.rmtree(d, ignore_errors=True)
 
